@@ -1617,6 +1617,8 @@ VARIANTS += [
       **s6(sub(sub(S6_HELPER, 'limit int64, what string)', 'limit int, what string)'), S6_TEST, '\tif desc.Size > int64(limit) {\n'), S6_B, S6_M, S6_N)),
  dict(name='seed6-twin-size-of-separate-descriptor-same-argument', expect='silent', **s6(S6_HELPER_SIZED, S6_BS, S6_MS, S6_NS),
       why='the descriptor that is measured is a parameter of its own, but every call site passes the fetched descriptor for it'),
+ dict(name='seed6-twin-optional-limit-always-given', expect='silent', **s6(sub(S6_HELPER, S6_TEST, '\tif limit > 0 && desc.Size > limit {\n'), S6_B, S6_M, S6_N),
+      why='the helper would skip the test for a non-positive limit, but every call site passes a positive constant: with that argument the skipping branch is not a path of the call'),
  dict(name='seed6-twin-literal-caps', expect='silent', **s6(S6_HELPER, S6_B.replace('maxBlobSizeLimit', '32<<20'), S6_M.replace('maxManifestSizeLimit', '4<<20'), S6_N.replace('maxManifestSizeLimit', '4*1024*1024')),
       why='the numbers are pinned, not the names of the constants'),
  # the seed and its relatives
